@@ -66,10 +66,14 @@ def exec_c02(cfg, devs):
     vsched.clear_traced_functions()
     if cfg.get('lines'):
         vsched.trace_functions(_traced_functions())
-    ex = cfh.Exec(devs, dev, time_limit=cfg.get('limit', 14.0), reply_menu=('once',), policy=cfg.get('policy'),
+    ex = cfh.Exec(devs, dev, time_limit=cfg.get('limit', 14.0), reply_menu=tuple(cfg.get('menu', ('once',))),
+                  policy=cfg.get('policy'),
                   send_fault=cfg.get('send_fault', False), needs_resending=cfg.get('resend', True))
     ex.env.on_fault = lambda kind: ex.log('fault', kind)
     ex.env.hello = bool(cfg.get('hello'))
+    if len(cfg.get('menu', ())) > 1:
+        # link-control / platform requests have no retry: losing or delaying them is outside the statement
+        ex.env.reply_filter = lambda h, payload: ('once',) if ((h >> 4) & 15) in (15, 13) else None
     ex.s.eager_start = bool(cfg.get('eager'))
     ex.env.on_rx = lambda idx: ex.log('rx', idx)
     if cfg.get('retry'):
@@ -445,6 +449,12 @@ def configs(quick):
         _cfg('scf:p10:retry:handoff', 'scf', 10, nlog=0, nparam=1, retry=True, policy='handoff'),
         _cfg('cf:p10:hello:handoff', 'cf', 10, send_fault=True, nlog=0, nparam=1, hello=True, policy='handoff'),
         _cfg('scf:p10:handoff', 'scf', 10, send_fault=True, nlog=0, nparam=1, policy='handoff'),
+        # two parameter reads in flight / queued when the user closes; the thread that a release wakes runs at once
+        _cfg('cf:p10:2params:handoff', 'cf', 10, nlog=0, nparam=2, policy='handoff', driver_fault=False),
+        # slow answers: a reply exactly at the retry instant, just after it, or lost (retry timers fire during the
+        # handshake)
+        _cfg('cf:p10:slow', 'cf', 10, nlog=0, nparam=1, menu=('once', 'delay0.2', 'delay0.25', 'drop'), driver_fault=False),
+        _cfg('scf:p10:slow', 'scf', 10, nlog=0, nparam=1, menu=('once', 'delay0.2', 'drop'), driver_fault=False),
     ]
     return out
 
@@ -457,6 +467,18 @@ def configs_deep():
 def configs_lines():
     return [_cfg('cf:p10:lines', 'cf', 10, lines=True, nlog=0, nparam=1, send_fault=False, hello=True),
             _cfg('scf:p10:lines', 'scf', 10, lines=True, nlog=0, nparam=1, send_fault=False, hello=True)]
+
+
+def _close_filter(devs, i, alt, label):
+    if not devs:
+        return any(a == alt and nm == 'user.close' for a, nm in getattr(label, 'lazy', ()))
+    return i <= devs[0][0] + 30
+
+
+def _slow_filter(devs, i, alt, label):
+    if not devs:
+        return label.startswith('reply:')
+    return i <= devs[0][0] + 60 and not label.startswith('reply:')
 
 
 def _focus_filter(devs, i, alt, label):
@@ -479,6 +501,11 @@ def run(ck):
     ck.note('sync_point_exploration', r)
     r2 = explore(ck, exec_c02, configs_lines(), 1)
     ck.note('line_level_exploration', r2)
+    # a slow answer (at / just after the retry instant, or lost) plus one thread switch within the next 60 points: the
+    # retry timer racing with the dispatcher that handles the late answer
+    slow = [_cfg('cf:p10:slow:focus2', 'cf', 10, nlog=0, nparam=1, menu=('once', 'delay0.2', 'drop'), driver_fault=False)]
+    r5 = explore(ck, exec_c02, slow, 2, child_filter=_slow_filter, max_execs=1500000)
+    ck.note('slow_answer_plus_one_switch', r5)
     if not ck.quick:
         r3 = explore(ck, exec_c02, configs_deep(), 2, max_execs=1500000)
         ck.note('two_deviation_exploration', r3)
@@ -487,6 +514,13 @@ def run(ck):
         r4 = explore(ck, exec_c02, [dict(c, name=c['name'] + ':focus2') for c in configs_lines()], 2,
                      child_filter=_focus_filter, max_execs=2500000)
         ck.note('focused_two_deviations_line_level', r4)
+        # the user closes at any point and one more switch follows within 30 points (close racing with the updater /
+        # dispatcher hand-overs), default and hand-off schedules
+        cl = [_cfg('cf:p10:2params:close+1', 'cf', 10, nlog=0, nparam=2, driver_fault=False),
+              _cfg('cf:p10:2params:handoff:close+1', 'cf', 10, nlog=0, nparam=2, policy='handoff', driver_fault=False),
+              _cfg('scf:p10:2params:handoff:close+1', 'scf', 10, nlog=0, nparam=2, policy='handoff', driver_fault=False)]
+        r6 = explore(ck, exec_c02, cl, 2, child_filter=_close_filter, max_execs=2500000)
+        ck.note('close_plus_one_switch', r6)
     ck.exhaustive = True
 
 
